@@ -6,6 +6,19 @@ VERIF = os.path.dirname(HERE)
 ALL = ["C%02d" % i for i in range(1, 19)]
 
 CLAIMS = {
+    "C04": dict(
+        text=("Rocq proof over a model of ZorgQueryCompiler that runs on any parse tree of the query grammar: Pn / Pn-m "
+              "denote exactly the priorities n..m for all 64 spellings, relative dates Nd/Nm/Ny (and the past form) equal "
+              "day / month / year arithmetic for every N < 1000 on month ends, month arithmetic is exact with end-of-month "
+              "clamping and stays a valid date, years are 12 months, the O and G clauses commute, omitted clauses keep the "
+              "defaults, a sub-filter attaches to the last and-filter of the enclosing group, the atoms of a group pool in "
+              "order, and the CLI normalisation adds exactly `W ` / ` G file`. End-to-end (text -> structure) is decided on "
+              "every run: exhaustive atom forms + random query structures against the denoted structure and against the "
+              "listener model on the exported ANTLR tree."),
+        note=("PARTIAL: the ANTLR query lexer/parser is not modelled; the rendering round trip is by generation (structure -> "
+              "text -> compile), not a theorem."),
+        technique="Rocq proof (denotation lemmas, finite-domain date/priority lemmas by vm_compute) + listener correspondence on exported trees + spec check",
+        design="§5 C04"),
     "C10": dict(
         text=("Rocq proof over the line-level model of FileManager.add_note/delete_note: deletion removes exactly "
               "len(body lines) lines starting at the FIRST line containing ' ZID ' and keeps every other line in order; "
